@@ -194,6 +194,22 @@ def main(tier: str) -> int:
                             run.violation({"source": kind, "integ": integ, "clause": "result-differs"}, f"{kind}: {len(got)} vs {len(want[integ])} items", {"stream": label})
                     except Exception as ex:  # noqa: BLE001
                         run.violation({"source": kind, "integ": integ, "clause": "raised"}, f"{kind}: {type(ex).__name__}: {str(ex)[:100]}", {"stream": label})
+        # a real operating-system socket (socketpair), read through makefile() buffered and raw: the kernel decides the read sizes
+        if len(data) <= 32768:
+            from .. import usage  # noqa: PLC0415
+
+            for kind in ("socket-makefile", "socket-makefile-unbuffered"):
+                for integ in ("generic", "rdflib"):
+                    evaluations += 1
+                    src, cleanup = usage.open_source(kind, data, "")
+                    try:
+                        got = impl.parse(integ, src, "flat")
+                        if got != want[integ]:
+                            run.violation({"source": kind, "integ": integ, "clause": "result-differs"}, f"{kind}: {len(got)} vs {len(want[integ])} items", {"stream": label, "hex": data.hex()})
+                    except Exception as ex:  # noqa: BLE001
+                        run.violation({"source": kind, "integ": integ, "clause": "raised"}, f"{kind}: {type(ex).__name__}: {str(ex)[:100]}", {"stream": label, "hex": data.hex()})
+                    finally:
+                        cleanup()
         if len(samples) < 3:
             samples.append({"stream": label, "bytes": len(data), "schedules": len(sched_list), "example": list(sched_list[len(sched_list) // 3])})
     return run.finish({
